@@ -45,7 +45,9 @@ Urls == <<
   MkUrl("http",  "", "a.b", "", "/b/ab/ba/a.b"),
   MkUrl("https", "", "aa.bb", "", "/aa.bb"),
   MkUrl("https", "", "abab.ba", "", "/x"),
-  MkUrl("https", "", "ab.ba.a", "", "/ab.ba.a/")
+  MkUrl("https", "", "ab.ba.a", "", "/ab.ba.a/"),
+  MkUrl("https", "", "ab.ba", "", "/AB/Ba"),
+  MkUrl("https", "", "b.a", "", "/A.B/b?A=B")
 >>
 
 Pats == [left : {"none", "pipe", "dpipe"}, body : SeqsUpTo(Sigma, 1, MaxLen), right : BOOLEAN]
